@@ -1,7 +1,7 @@
 (* props/C02.v — Python decode inverts encode and consumes exactly the message. *)
 From Coq Require Import ZArith List Bool Lia.
 From Prophy Require Import Bytes Schema Layout Wire Src PyStatics PyEncode PyDecode
-  Arith SpecAlign Views SpecLen PyEncodeFacts PyRoundtrip.
+  Arith SpecAlign Views SpecLen PyEncodeFacts PyRoundtrip PyRoundtripGreedy.
 Import ListNotations.
 Local Open Scope Z_scope.
 
@@ -34,9 +34,31 @@ Theorem C02_roundtrip_nested :
 Proof. exact py_dec_roundtrip. Qed.
 Print Assumptions C02_roundtrip_nested.
 
-(* Not proved (decided by the differential run and the spec oracle only):
-   the same statement for messages WITH a greedy tail that ends aligned
-   (greedy_tail_aligned t v = true), the documented exception being tails that do not. *)
+(* messages WITH a greedy tail, when the tail ends aligned — the case the property claims, the
+   documented exception being tails that do not. [tail_clean t v]: the final padding of every
+   struct on the path down to the greedy array is empty (nothing follows the last element). It is
+   the recursive form of the spec's [greedy_tail_aligned] (Wire.v: the last unl_depth segments of
+   the layout are empty); that the two predicates agree is evaluated on every generated case by the
+   correspondence run (CheckLib.tail_defs_case), not proved. *)
+Theorem C02_roundtrip_greedy_tail_aligned :
+  forall (e : endian) (fs : list field) (v : value),
+    legal (TStruct fs) = true -> stiffness (TStruct fs) = Unlimited ->
+    wt (TStruct fs) v = true -> within_guard (TStruct fs) v = true -> tail_clean (TStruct fs) v = true ->
+    exists b, py_enc e (TStruct fs) v = Ok b /\ py_decode e (TStruct fs) b = Ok (v, len b).
+Proof.
+  intros e fs v Hl Hu Hw Hg Ht. exists (wire e (TStruct fs) v). split.
+  - apply py_enc_canonical; [reflexivity|exact Hl|exact Hw].
+  - apply py_decode_roundtrip_unl; assumption.
+Qed.
+Print Assumptions C02_roundtrip_greedy_tail_aligned.
+
+Definition ex_g : ty := TStruct [(FPlain, TScalar U16); (FPlain, TStruct [(FPlain, TScalar U8); (FGreedy, TStruct [(FPlain, TScalar U32); (FBound 0%nat, TScalar U8)])])].
+Definition ex_gv : value := VStruct [VInt 7; VStruct [VInt 1; VList [VStruct [VInt 2; VList [VInt 5; VInt 6]]; VStruct [VInt 4; VList [VInt 1; VInt 2; VInt 3; VInt 4]]]]].
+Example C02_greedy_inhabited :
+  legal ex_g = true /\ wt ex_g ex_gv = true /\ stiffness ex_g = Unlimited /\ tail_clean ex_g ex_gv = true /\
+  greedy_tail_aligned ex_g ex_gv = true /\
+  py_decode LE ex_g (wire LE ex_g ex_gv) = Ok (ex_gv, len (wire LE ex_g ex_gv)).
+Proof. vm_compute. repeat split; reflexivity. Qed.
 
 Definition ex_t : ty := TStruct
   [(FPlain, TScalar U8); (FOpt, TScalar U64); (FPlain, TScalar U32); (FBound 2%nat, TStruct [(FPlain, TScalar I16); (FPlain, TUnion [(7, TScalar U8); (9, TScalar U64)])]);
